@@ -1,1 +1,27 @@
-(* placeholder *)
+(* C08 - each connection is closed and reported via OnClose once, after its handlers end.
+   ONLY statements.  The model is the labelled transition system of Sys.v:
+   every interleaving of the Run thread, any number of Stop calls, connection
+   goroutines, per-request goroutines (with arbitrary handler scripts) and the
+   environment (clients, barriers, slow OnClose).  [reachable cfg s]: s is the
+   result of some label sequence from the initial state.  The boolean fields
+   of [cfg] are the places where the pinned and the current tree differ;
+   [fixed_cfg] is the current tree (validated behaviourally on every run by the
+   scenario correspondence), [pinned_cfg] the tree before the fix commits. *)
+From G Require Import Base Sys SysProofs SysProps.
+Open Scope nat_scope.
+
+Theorem C08_once_after_handlers : forall cfg s i c, reachable cfg s -> conn_of s i c ->
+  onclose c <= 1 /\ (onclose c = 1 -> inflight c = 0 /\ hs c = [] /\ sock_closed c = true).
+Proof. exact c08_once_after_handlers. Qed.
+Print Assumptions C08_once_after_handlers.
+
+Theorem C08_every_ending : forall cfg s i c, reachable cfg s -> conn_of s i c -> pc c = CDone ->
+  onclose c = (if has_onclose cfg then 1 else 0) /\ sock_closed c = true /\ inflight c = 0 /\ wgdone c = true.
+Proof. exact c08_every_ending. Qed.
+Print Assumptions C08_every_ending.
+
+Theorem C08_funnel : forall cfg s c c' e, conn_step cfg s c = Some (c', e) ->
+  (match pc c with CTeardown _ | CDone => False | _ => True end) ->
+  (match pc c' with CTeardown todo => todo = teardown_of cfg | CDone => False | _ => True end).
+Proof. exact c08_funnel. Qed.
+Print Assumptions C08_funnel.
